@@ -42,7 +42,7 @@ func (x *c20SX) switchStmt(s *ast.SwitchStmt, st *c20St) []*c20St {
 			}
 		}
 		for _, o := range x.block(cc.Body, []*c20St{c}) {
-			if o.ctl == c20cBrk {
+			if o.ctl == c20cBrk && o.lbl == "" {
 				o.ctl = c20cRun
 			}
 			out = append(out, o)
